@@ -56,7 +56,10 @@ var c16Alphabet = append(append([]string{}, keyAlphabet...), "a\x1fs:b", "b\x1fs
 
 func c16Domain(r *rand.Rand, c *c16Case) []any {
 	var d []any
-	nums := []any{1, 1.0, int64(1), 2, 2.0, 2.5, float32(2.5), 3, -1, 0, math.Copysign(0, -1), uint(3), int32(2), uint64(1)}
+	nums := []any{1, 1.0, int64(1), 2, 2.0, 2.5, float32(2.5), 3, -1, 0, math.Copysign(0, -1), uint(3), int32(2), uint64(1),
+		// the same value in different Go types at magnitudes where float formatting changes shape
+		1000000, 1000000.0, int64(1000000), 12345678, 12345678.0, uint64(12345678), 1e15, int64(1000000000000000), -2500000, -2500000.0,
+		1e21, 0.000001, 1e-7, float32(1e6), int32(1000000)}
 	small := []any{int8(1), int16(2), uint8(3), uint16(1)}
 	switch r.Intn(4) {
 	case 0: // numbers and their string look-alikes
